@@ -161,25 +161,30 @@ class SourceFile:
             raise Undecided('lexer: %s in %s' % (e, path))
 
     def find(self, path_expr):
-        """path_expr: 'struct X' | 'fn f' | 'impl A for B :: fn f' | 'trait T :: fn f' | 'impl A for B' ..."""
-        parts = [p.strip() for p in path_expr.split('::fn ')] if False else None
+        """path_expr: 'struct X' | 'fn f' | 'impl A for B :: fn f' | 'trait T :: fn f' ...; several impl blocks may share a header"""
         segs = [s.strip() for s in re.split(r'\s+::\s+', path_expr.strip())]
-        cands = self.items
-        found = None
-        for depth, seg in enumerate(segs):
+
+        def match(items, seg):
             kind = seg.split()[0]
             hits = []
-            for it in cands:
+            for it in items:
                 if it.kind in ('impl', 'trait') and kind == it.kind:
                     if norm(it.header) == norm(seg):
                         hits.append(it)
-                elif it.kind == kind and it.name == seg.split()[1]:
+                elif it.kind == kind and it.kind not in ('impl', 'trait') and it.name == seg.split()[1]:
                     hits.append(it)
-            if len(hits) != 1:
-                raise Undecided('lost anchor: %r matches %d items in %s (segment %r)' % (path_expr, len(hits), self.path, seg))
-            found = hits[0]
-            cands = found.children
-        return found
+            return hits
+
+        cands = [self.items]
+        found = []
+        for depth, seg in enumerate(segs):
+            found = []
+            for items in cands:
+                found += match(items, seg)
+            cands = [f.children for f in found]
+        if len(found) != 1:
+            raise Undecided('lost anchor: %r matches %d items in %s' % (path_expr, len(found), self.path))
+        return found[0]
 
     def line_of(self, item):
         # strip_comments keeps every newline, so offsets in self.src map to the same line as in the raw file
